@@ -203,7 +203,7 @@ func (root *Root) resolve(
 					if unbound == nil {
 						unbound = err
 					}
-				} else if objType == meta {
+				} else if baseType(objType) == meta {
 					result, ea = root.resolveFieldSels(obj, vars, field, m, depth-1)
 					unbound = nil
 					break
@@ -856,6 +856,16 @@ TOP:
 				}
 			}
 		case method != nil:
+			// The methods are those of the pointer to the type, a value
+			// that is not a pointer is copied to have one.
+			for ov.Kind() == reflect.Ptr && ov.Elem().Kind() == reflect.Ptr {
+				ov = ov.Elem()
+			}
+			if ov.Kind() != reflect.Ptr {
+				pv := reflect.New(ov.Type())
+				pv.Elem().Set(ov)
+				ov = pv
+			}
 			args, ea2 := root.formReflectArgs(ov, vars, field, fd)
 			if 0 < len(ea2) {
 				ea = append(ea, ea2...)
